@@ -83,6 +83,8 @@ func identityMutations() []idMut {
 	field("keys-garbage", "must-reject", "pub_keys", []any{"not an armored key"})
 	field("keys-number", "must-reject", "pub_keys", []any{1})
 	field("keys-string", "must-reject", "pub_keys", "key")
+	field("keys-null-element", "must-reject", "pub_keys", []any{nil})
+	field("keys-null", "unclassified", "pub_keys", nil)
 	field("keys-wrong-armor-type", "must-reject", "pub_keys", []any{"-----BEGIN PGP MESSAGE-----\n\nAAAA\n=AAAA\n-----END PGP MESSAGE-----"})
 	field("metadata-number", "must-reject", "metadata", map[string]any{"k": 1})
 	field("unix-time-zero", "unclassified", "unix_time", 0)
